@@ -3,6 +3,7 @@ package c06
 
 import (
 	"fmt"
+	"os"
 	"math/rand"
 	"sort"
 	"strings"
@@ -116,12 +117,33 @@ func Generate(rng *rand.Rand, i int, thorough bool) *p2prig.Scenario {
 			if maxLen > 40 {
 				maxLen = 40
 			}
-			s.Nodes = append(s.Nodes, p2prig.NodeSpec{Kind: "forker", ForkAt: forkAt, ForkLen: 1 + rng.Intn(maxLen)})
+			fl := 1 + rng.Intn(maxLen)
+			slow := false
+			if (s.InitialStore == "prefix" || s.InitialStore == "stale-fork" || s.InitialStore == "lighter-fork") && s.PrefixLen > forkAt && forkAt+fl > s.PrefixLen {
+				// The store already holds the honest chain beyond this fork point and the forker is taller than the
+				// store: if it becomes the sync peer its reply holds no longest-chain header, it is not asked again,
+				// and other peers' announcements are ignored until the 3-minute sync-peer rotation. Quick tier:
+				// keep the forker no taller than the store; thorough tier: allow it and wait for the rotation.
+				if thorough && rng.Intn(3) == 0 {
+					slow = true
+				} else {
+					fl = s.PrefixLen - forkAt
+				}
+			}
+			if slow {
+				s.SlowConvergeWaitSec = 270
+			}
+			s.Nodes = append(s.Nodes, p2prig.NodeSpec{Kind: "forker", ForkAt: forkAt, ForkLen: fl})
 			linear = false
 		}
 	}
 	if s.InitialStore == "stale-fork" || s.InitialStore == "lighter-fork" {
 		linear = false
+	}
+	// The legacy server opens up to 8 outbound connections and up to 5 to one host: keep the other nodes from
+	// filling every slot, otherwise the premise "connected to ... at least one honest peer" cannot come true.
+	for k := 1; k < len(s.Nodes); k++ {
+		s.Nodes[k].MaxLive = 2
 	}
 	// reply caps: any cap >= 1 for linear catch-up, 2000 otherwise
 	if linear && rng.Intn(3) == 0 {
@@ -169,6 +191,16 @@ func Generate(rng *rand.Rand, i int, thorough bool) *p2prig.Scenario {
 		}
 	}
 	return s
+}
+
+// GenerateFor returns the scenario of case index i for the current VERIF_SEED / VERIF_TIER (debug aid).
+func GenerateFor(i int) *p2prig.Scenario {
+	var out *p2prig.Scenario
+	spec := Spec()
+	_ = spec
+	r := ev.NewDetached("C06")
+	out = Generate(r.Rand(fmt.Sprintf("s/%d", i)), i, r.Thorough())
+	return out
 }
 
 // Classify is the coarse structural signature of a scenario for distinct counting.
@@ -234,6 +266,9 @@ func Record(r *ev.Run, s *p2prig.Scenario, res *p2prig.Result, crash string, onl
 	switch res.Verdict {
 	case "inconclusive":
 		r.Inconclusive(s.ID, res.What)
+		if res.Panic != "" && os.Getenv("VERIF_KEEP_DUMPS") != "" {
+			_ = os.WriteFile(fmt.Sprintf("/tmp/me/inconclusive-%s.txt", strings.ReplaceAll(s.ID, "/", "_")), []byte(res.What+"\n"+res.Panic), 0o644)
+		}
 		r.Count("inconclusive_scenarios", 1)
 		return
 	case "violated":
@@ -256,7 +291,7 @@ func body(r *ev.Run) {
 	r.Rule("scenarios = seeded draws over engine {legacy full server, experimental Peer} x checkpoints {enabled, disabled (legacy)} x checkpoint list {one, several, at the honest tip, none (experimental)} x initial store {genesis, honest prefix, stale fork present, on a lighter fork} x 1..4 scripted peers {honest, laggards, lighter forkers above the last checkpoint} x reply cap {2000; 1/7/500 for linear catch-up} x chain length {short, around the cap, beyond it} x announcement rounds {inv, headers, conformant; one or two peers announce} x faults {honest peer drops the connection at message i (re-dial awaited); stalling peer (thorough)}; every scenario ends with an honest announcement round. One scenario = one child process running the real engine against loopback scripted nodes; verdict at logical quiescence (ping/pong per connection + sync-manager round trip until two rounds change nothing). distinct = distinct structural classes; non-trivial = all (each has >=1 sync + >=1 announcement).")
 	r.Assume("honest blocks carry strictly more work than competing ones and the honest chain extends at least as far past a fork point as the competing branch (a competing fork is adoptable from one reply)", "laggards' tips and fork points lie above the last checkpoint; tips are within the 24 h 'current' window", "experimental engine: one outbound peer, announcements by headers/conformant only", "timer-driven behaviour longer than the scenario waits for (3-minute sync-peer rotation) is out of reach")
 	r.Require("converged", 10)
-	n := r.Pick(64, 1500)
+	n := r.Pick(128, 1500)
 	for i := 0; i < n; i++ {
 		caseID := fmt.Sprintf("s/%d", i)
 		r.Do(caseID, func() {
